@@ -213,21 +213,53 @@ def logical_or(left, right):
     """Perform logical or, but in a smart way
     so that we only construct a logical or when we need to.
 
-    This implements the weaker notion of RE equivalence.
+    The alternatives are kept in a canonical form (flattened, without
+    duplicates, symbol sets merged, in a fixed order). This treats
+    the or-operator as associative, commutative and idempotent, which
+    is what keeps the number of distinct derivatives of an expression
+    finite.
     """
-    if isinstance(left, SymbolSet) and isinstance(right, SymbolSet):
-        return SymbolSet(left.symbols | right.symbols)
+    symbols = IntegerSet()
+    alternatives = {}
+    for term in itertools.chain(_alternatives(left), _alternatives(right)):
+        if isinstance(term, SymbolSet):
+            symbols = symbols | term.symbols
+        else:
+            alternatives.setdefault(term, term)
 
-    if left == right:
-        return left
+    terms = sorted(alternatives, key=_sort_key)
+    if symbols:
+        terms.insert(0, SymbolSet(symbols.ranges))
 
-    if left == NULL:
-        return right
+    if not terms:
+        return NULL
 
-    if right == NULL:
-        return left
+    expr = terms.pop()
+    while terms:
+        expr = LogicalOr(terms.pop(), expr)
+    return expr
 
-    return LogicalOr(left, right)
+
+def _alternatives(expr):
+    """Iterate over the operands of a (nested) or-expression."""
+    if isinstance(expr, LogicalOr):
+        yield from _alternatives(expr.lhs)
+        yield from _alternatives(expr.rhs)
+    else:
+        yield expr
+
+
+def _sort_key(expr):
+    """Structural key to put expressions in a fixed order."""
+    key = expr.orderby()
+    if isinstance(key, str):
+        return (key,)
+    return tuple(
+        _sort_key(k)
+        if isinstance(k, Regex)
+        else (k.ranges if isinstance(k, IntegerSet) else k)
+        for k in key
+    )
 
 
 class LogicalOr(Regex):
